@@ -19,7 +19,7 @@ RELABEL = {
     'leftrec_nullable': {'*': ['C07']},
     'check2_plain': {'*': ['C14', 'C12']}, 'extern_ctx': {'*': ['C14']}, 'trace_rules': {'*': ['C19']},
     'position_skip': {'*': ['C09']}, 'position_string': {'*': ['C09']}, 'position_root': {'*': ['C09']}, 'position_root_bom': {'*': ['C09']},
-    'string_rule': {'C09': ['C09'], '*': ['C02']}, 'char_rule': {'C14': ['C14'], 'C10': ['C10'], '*': ['C01']},
+    'string_rule': {'C09': ['C09'], '*': ['C02']}, 'char_rule': {'C14': ['C14'], 'C10': ['C10'], '*': ['C01', 'C14']},
     'position_enum_override': {'*': ['C09']}, 'check_string': {'C10': ['C10', 'C14'], '*': ['C14']}, 'check_override': {'*': ['C14']},
     'leftrec_indirect': {'C10': ['C10'], '*': ['C07']}, 'extern_string': {'*': ['C14']},
     'include_nested': {'C01': ['C13', 'C08'], '*': ['C13']}, 'include_choice_closure': {'*': ['C13']},
@@ -31,10 +31,14 @@ RELABEL = {
     'include_fieldless_check': {'*': ['C13']}, 'include_chain': {'*': ['C13']},
     'leftrec_memo_inner': {'C06': ['C06'], 'C10': ['C10'], '*': ['C07', 'C05']},
     'nest_skip_mix': {'*': ['C08']},
+    'ws_choice_nullable': {'C09': ['C09', 'C08'], 'C01': ['C08', 'C01', 'C09'], '*': ['C08']}, 'ws_choice_opt_arm': {'C01': ['C08', 'C01'], '*': ['C08']},
+    'check_position': {'C09': ['C09'], '*': ['C14']}, 'seq_rebind': {'*': ['C02']}, 'string_insensitive': {'*': ['C02']},
+    'opt_choice_fields': {'*': ['C02']}, 'choice_arm_choice_fields': {'*': ['C02']}, 'position_string_utf8': {'*': ['C09']},
+    'include_same_name_other_body': {'C01': ['C13', 'C08'], '*': ['C13']},
     'enum_field': {'*': ['C02']}, 'boxed': {'*': ['C02']}, 'box_merge': {'*': ['C02']}, 'override_simple': {'*': ['C02']}, 'override_enum': {'*': ['C02']},
 }
 # driver-level verdicts (reject / compile / same_as) and compile errors are attributed to:
-STATIC_PROP = {'reject_nonascii_insensitive': 'C04', 'keywords': 'C03', 'layout_variants': 'C12', 'layout_tight': 'C12'}
+STATIC_PROP = {'reject_nonascii_insensitive': 'C04', 'keywords': 'C03', 'keywords_all': 'C03', 'field_named_like_unit_rule': 'C03', 'layout_variants': 'C12', 'layout_tight': 'C12'}
 
 def templates_dir(ctx): return os.path.join(ctx.root, 'kani', 'templates')
 
@@ -90,7 +94,7 @@ def prepare(ctx):
     sys.path.insert(0, tdir)
     import gen_schemas
     SCHEMAS, _ = load_defs(ctx)
-    names = list(SCHEMAS)
+    names = [n for n in SCHEMAS if not SCHEMAS[n].isolated]
     T['gen'] = gen
     for attempt in range(4):
         try:
@@ -142,6 +146,35 @@ def prepare(ctx):
         T['errors'].append('harness crate still does not build after excluding %s' % T['excluded'])
     T['prepare_s'] = round(time.time() - t0, 1)
     return T
+
+def build_isolated(ctx, T, name):
+    """schemas kept out of the shared harness crate (a known finding that does not compile would force a rebuild on every
+    run of every property): generated and compiled on their own, only for the properties they were written for"""
+    import gen_schemas
+    gen = os.path.join(ctx.scratch, 'tgen_' + name)
+    shutil.rmtree(gen, ignore_errors=True)
+    st = gen_schemas.main(T['driver'], gen, [name])
+    T['status'][name] = st[name]
+    if st[name]['driver'] != 'OK':
+        return
+    th = T.get('harness_dir') or os.path.join(ctx.scratch, 'th')
+    env = _cargo_env(gen); env['CARGO_TARGET_DIR'] = os.path.join(ctx.scratch, 'th_iso_target')
+    p = subprocess.run(['cargo', 'build', '--offline', '--release', '--lib', '--message-format=json'], cwd=th, capture_output=True, text=True, env=env, timeout=1800)
+    if p.returncode != 0:
+        msgs = []
+        for line in p.stdout.split('\n'):
+            if not line.startswith('{'): continue
+            try: m = json.loads(line)
+            except Exception: continue
+            msg = m.get('message') or {}
+            if m.get('reason') == 'compiler-message' and msg.get('level') == 'error':
+                msgs.append(msg.get('rendered', msg.get('message', ''))[:1200])
+        T['compile_violations'][name] = msgs or [p.stderr[-800:]]
+        T['excluded'].append(name)
+
+def _ebnf_path(ctx, T, n):
+    p = os.path.join(T['gen'], n + '.ebnf')
+    return p if os.path.exists(p) else os.path.join(ctx.scratch, 'tgen_' + n, n + '.ebnf')
 
 def _module_lines(path):
     res = []
@@ -195,7 +228,11 @@ def t_part(ctx, prop):
     if T['errors']:
         out['inconclusive'] += T['errors']
         return out
-    mine = [n for n, s in SCHEMAS.items() if prop in outputs_of(n, s)]
+    mine = [n for n, s in SCHEMAS.items() if prop in outputs_of(n, s) and not s.isolated]
+    for n, s in SCHEMAS.items():
+        if s.isolated and prop in s.props:
+            if n not in T['status']: build_isolated(ctx, T, n)
+            mine.append(n)
     cap = THOROUGH_CAP if ctx.tier == 'thorough' else QUICK_CAP
     # static verdicts
     for n in mine:
@@ -204,7 +241,7 @@ def t_part(ctx, prop):
         if n in T['compile_violations'] and (prop == 'C03' or prop == STATIC_PROP.get(n) or prop in s.props):
             rp = ctx.replay_path('T-compile-%s' % n)
             out['violations'].append({'id': 'T:%s:compile' % n, 'layer': 'T', 'schema': n, 'assertion': 'generated code compiles with the documented types',
-                                      'replay': rp, 'no_failing_input': False, 'grammar': open(os.path.join(T['gen'], n + '.ebnf')).read(),
+                                      'replay': rp, 'no_failing_input': False, 'grammar': open(_ebnf_path(ctx, T, n)).read(),
                                       'rustc': T['compile_violations'][n][:3],
                                       'what': 'schema %s (%s): rustc rejects the generated code / its documented field types:\n%s' % (n, s.note, T['compile_violations'][n][0][:700])})
             continue
@@ -223,7 +260,7 @@ def t_part(ctx, prop):
             if not ok:
                 rp = ctx.replay_path('T-static-%s' % n)
                 out['violations'].append({'id': 'T:%s:%s' % (n, s.expect), 'layer': 'T', 'schema': n, 'assertion': 'generator verdict: expected ' + s.expect,
-                                          'replay': rp, 'no_failing_input': False, 'grammar': open(os.path.join(T['gen'], n + '.ebnf')).read(),
+                                          'replay': rp, 'no_failing_input': False, 'grammar': open(_ebnf_path(ctx, T, n)).read(),
                                           'what': 'schema %s (%s): expected "%s" from the generator, got: %s' % (n, s.note, s.expect, st['driver'][:400])})
     run = [n for n in mine if SCHEMAS[n].expect == 'ok' and n not in T['excluded'] and T['status'].get(n, {}).get('verdict') == 'harness']
     if prop == 'C03':
@@ -253,7 +290,7 @@ def t_part(ctx, prop):
         out['evaluations'] += r['valid']
         out['nontrivial'] += r['nontrivial']
         if len(out['samples']) < 5:
-            out['samples'].append({'schema': n, 'grammar': open(os.path.join(T['gen'], n + '.ebnf')).read(), 'bound': 'input <= %d bytes' % r['n'],
+            out['samples'].append({'schema': n, 'grammar': open(_ebnf_path(ctx, T, n)).read(), 'bound': 'input <= %d bytes' % r['n'],
                                    'operand_tables_enumerated': r['valid'], 'accepted': r['accepted'], 'rejected': r['rejected']})
         for f in r['fails']:
             under = relabel(n, f['label'])
@@ -263,7 +300,7 @@ def t_part(ctx, prop):
             rp = ctx.replay_path('T-%s-%s' % (n, f['label']))
             out['violations'].append({'id': 'T:%s:%s' % (n, f['label']), 'layer': 'T', 'schema': n, 'assertion': f['what'], 'label': f['label'],
                                       'replay': rp, 'no_failing_input': False, 'tables': f['tables'], 'kv': f['kv'], 'bound_n': r['n'],
-                                      'grammar': open(os.path.join(T['gen'], n + '.ebnf')).read(),
+                                      'grammar': open(_ebnf_path(ctx, T, n)).read(),
                                       'what': 'schema %s [%s]: %s\n  operands/input: %s' % (n, s.note, f['what'], f['tables'])})
     # a relevant schema whose generated code does not compile cannot be run: undecided for this property (it is a C03 violation)
     for n in mine:
